@@ -281,20 +281,22 @@ def rule_guard(c: Ctx) -> RuleResult:
         r.add("delims|nomatch", c.where(f, w0), f.short, U(w0)[:80], "discharged" if guarded else "violation",
               "the bound is recorded when the search for this closer failed" if guarded else "the bound store is not tied to the failed-search path")
     # ---------------------------------------------------------------- G4 paren-depth cap
-    f = c.p.func("helpers/parse_link_destination.py:parseLinkDestination")
-    cfg = c.cfg(f)
+    f0 = c.p.func("helpers/parse_link_destination.py:parseLinkDestination")
     r.functions += 1
-    # the depth counter: a local that is incremented by 1 under a `( ` test and decremented elsewhere inside the scan loop
+    # the depth counter: a local that is incremented by 1 under a `( ` test and decremented elsewhere inside the scan loop -
+    # in parseLinkDestination itself or in a helper of its module it delegates the bare-destination scan to
     incs = []
-    for n in own_nodes(f.node):
-        inc = incr_of(n) if isinstance(n, (ast.Assign, ast.AugAssign)) else None
-        if inc is not None and inc[2] and const_int(inc[1]) == 1 and inc[0].isidentifier():
-            dec = any((d := incr_of(x)) is not None and d[0] == inc[0] and not d[2] for x in own_nodes(f.node) if isinstance(x, (ast.Assign, ast.AugAssign)))
-            if dec:
-                incs.append((n, inc[0]))
+    cands = [f0] + sorted({g for cs in c.cg.sites.get(f0, []) for g in cs.callees if g.module is f0.module and g is not f0}, key=lambda x: x.qual)
+    for f in cands:
+        for n in own_nodes(f.node):
+            inc = incr_of(n) if isinstance(n, (ast.Assign, ast.AugAssign)) else None
+            if inc is not None and inc[2] and const_int(inc[1]) == 1 and inc[0].isidentifier():
+                dec = any((d := incr_of(x)) is not None and d[0] == inc[0] and not d[2] for x in own_nodes(f.node) if isinstance(x, (ast.Assign, ast.AugAssign)))
+                if dec:
+                    incs.append((f, n, inc[0]))
     if not incs:
         raise AnchorError("parseLinkDestination: paren depth counter not found")
-    for (inc, var) in incs:
+    for (f, inc, var) in incs:
         loop = None
         p = f.module.parents.get(inc)
         while p is not None and p is not f.node:
